@@ -30,6 +30,17 @@ CHECKS.update({
  "C16": ("keepermc", "explicit-state DFS over the real relayer keeper (requests, NewVoter/AcceptProposer/vote handlers, EndBlocker) with group invariants and reference election/registration predicates",
          "Every relayer history up to the depth bound for group sizes 1..3 is executed on the real keeper and message handlers; invariants hold in every reached state, NewVoter verdicts agree with a reference (8 forged/replayed variants), elections happen exactly when the reference predicate says.", KB_NOTE, "DESIGN.md section 4 C16"),
 })
+CHECKS.update({
+ "C03": ("inputmc", "exhaustive bounded enumeration of deposit messages (genuine cores x single and double deviations) through the real MsgNewDeposits handler against a reference Bitcoin world, plus depth-3 batch histories",
+         "Full product of genuine deposit cores and every single / pair of 35 deviation kinds is delivered to the real handler on branches of a real App; every accepted batch is re-evaluated against the statement's conditions with independent merkle/script/tax code and ground-truth transaction positions; batch histories check at-most-once crediting.",
+         "Only-if direction (over-rejection is not a violation); voted hashes injected into the BlockHashes collection; hash functions and secp256k1 trusted; handful of keys/addresses.", "DESIGN.md section 4 C03"),
+ "C17": ("inputmc", "exhaustive cross product of (key, EVM address, network, version, magic) through the real Query/DepositAddress handler, builders and verifiers; hand-encoded withdrawal addresses and all single-character substitutions through the real decoder and ProcessBridgeRequest",
+         "Every handed-out address of the alphabet is checked against the verifier for the full cross product of (key', address') and against the protocol's reference script; every standard address kind of four networks (encoded by hand) and ~15k mutated strings are decoded for every network.",
+         "btcd encoders trusted as reference decoder for mutated strings; 11 keys, 6 addresses.", "DESIGN.md section 4 C17"),
+ "C20": ("keepermc", "explicit-state BFS to fixpoint over bridge parameter states under the real ProcessBridgeRequest, with deposits verified in every reachable state",
+         "All parameter states reachable from three safe corners under requests over a 12-value 64-bit alphabet are enumerated to fixpoint (no depth bound); the bounds invariant and deposit tax/amount/dust conditions are checked in every state.",
+         "Parameter values outside the alphabet are not covered; states are materialised by writing Params on a branch.", "DESIGN.md section 4 C20"),
+})
 PENDING = {}
 
 def main():
